@@ -58,6 +58,12 @@ def task(logdir, call_no, i, fails, delay, exc="TaskFail"):
             raise KeyboardInterrupt("task failed", i)
         if exc == "BaseFail":
             raise BaseFail("task failed", i)
+        if exc == "UnpicklableExc":
+            import threading
+            raise TaskFail("task failed", i, threading.Lock())
+        if exc == "UnpicklableRet":
+            import threading
+            return (call_no, i, threading.Lock())
         raise TaskFail("task failed", i)
     return (call_no, i, FLAG.get("k"))
 
@@ -77,7 +83,10 @@ def gen_input(logdir, call_no, N, tfail, ifail, rng, exc="TaskFail"):
 def one_call(p, c, logdir, call_no, rng, tfail, ifail):
     out = {"values": None, "raised": None}
     try:
-        r = p(gen_input(logdir, call_no, c["N"], tfail, ifail, rng, c.get("exc", "TaskFail")))
+        inp = gen_input(logdir, call_no, c["N"], tfail, ifail, rng, c.get("exc", "TaskFail"))
+        if c.get("sized") and ifail is None:
+            inp = list(inp)            # a sized input: Parallel knows the number of tasks (n_tasks)
+        r = p(inp)
         ab = c.get("abandon") if call_no == 1 else None
         if ab and c["return_as"] != "list":
             # the output generator is abandoned after `npull` values: closed, or dropped and collected
@@ -100,7 +109,7 @@ def one_call(p, c, logdir, call_no, rng, tfail, ifail):
             out["values"] = vals
             out["abandoned"] = True
         else:
-            out["values"] = [list(v) for v in r]
+            out["values"] = [[x if isinstance(x, (int, str, type(None))) else "<%s>" % type(x).__name__ for x in v] for v in r]
     except BaseException as e:  # noqa
         out["raised"] = [type(e).__name__, [a if isinstance(a, (int, str)) else repr(a) for a in e.args]]
         try:
